@@ -110,6 +110,13 @@ def _geq(a, b, path, out, seen):
         else:
             out.append((path + ' type', z3.BoolVal(False)))
         return
+    if isinstance(a, SObj) and isinstance(b, SObj) and (getattr(a, 'abstract', False) or getattr(b, 'abstract', False)):
+        # objects known only through their class contract: equal iff they are the same parse result
+        if getattr(a, 'abstract', False) and getattr(b, 'abstract', False) and a.cls is b.cls:
+            out.append((path + ' (same nested parse result)', a.abstract_id == b.abstract_id))
+        else:
+            out.append((path + ' (abstract vs concrete object)', z3.BoolVal(False)))
+        return
     if isinstance(a, SObj) or isinstance(b, SObj) or (hasattr(type(a), '__attrs_attrs__') and hasattr(type(b), '__attrs_attrs__')):
         ca, cb = I.py_type_of(a), I.py_type_of(b)
         if ca is not cb:
